@@ -98,17 +98,17 @@ Qed.
 
 (* the relation between the error lists: both are the same locale-major `groups` function — the batch over
    the key list and the bundles it visits, the single request over the one-key list and its own depth —
-   followed by the closing entries; and the batch visits max_i depth_i bundles, at least 1 (so a request with
-   an EMPTY key list still pulls the first bundle) *)
+   followed by the closing entries; and the batch visits exactly max_i depth_i bundles: 0 for an EMPTY key
+   list (nothing is pulled and nothing is pushed, not even the errors carried by a broken first bundle),
+   otherwise at least 1 whenever the sequence is not empty *)
 Theorem C16_batch_errs : forall (seq : list (bundle_result Pat BErr)) (keys : list key) (errors : list err),
   all_wf seq ->
   exists res es n,
     format_values_from_inner seq keys errors = Done (res, es, n) /\
     es = errors ++ groups has_value value_entry [] (firstn n seq) keys ++ flat_map (value_final seq) keys /\
-    n = match seq with
-        | [] => 0
-        | _ => Nat.max 1 (list_max (map (fun k => visits has_value [] seq [k]) keys))
-        end /\
+    n = list_max (map (fun k => visits has_value [] seq [k]) keys) /\
+    (keys = [] -> res = [] /\ es = errors /\ n = 0) /\
+    (keys <> [] -> seq <> [] -> 1 <= n) /\
     forall k (errors' : list err),
       format_value_from_inner seq (k_id Args k) (k_args Args k) false errors' 0 =
         Done (first_value seq k,
@@ -117,8 +117,11 @@ Theorem C16_batch_errs : forall (seq : list (bundle_result Pat BErr)) (keys : li
               visits has_value [] seq [k]).
 Proof.
   intros seq keys errors Hwf. eexists _, _, _. split; [apply (format_values_spec fmt), Hwf|].
-  split; [reflexivity|]. split; [apply visits_max|].
-  intros k errors'. apply (format_value_spec fmt), Hwf.
+  split; [reflexivity|]. split; [apply batch_visits_list_max|]. split; [|split].
+  - intros ->. cbn. rewrite app_nil_r. repeat split; reflexivity.
+  - intros Hk Hs. destruct keys as [|k0 keys]; [congruence|]. destruct seq as [|r seq]; [congruence|].
+    unfold Walk.batch_visits. cbn [is_nil]. apply visits_pos.
+  - intros k errors'. apply (format_value_spec fmt), Hwf.
 Qed.
 
 (* a single request IS the batch request for the one-key list — result, error list, bundles pulled, and
@@ -127,7 +130,7 @@ Theorem C16_single_is_batch1 : forall (seq : list (bundle_result Pat BErr)) (k :
   format_value_from_inner seq (k_id Args k) (k_args Args k) false errors 0 =
     let* (res, es, n) := format_values_from_inner seq [k] errors in Done (hd None res, es, n).
 Proof.
-  intros seq k errors. rewrite (single_batch1 fmt). unfold Walk.format_values_from_inner. cbn [length repeat].
+  intros seq k errors. rewrite (single_batch1 fmt). unfold Walk.format_values_from_inner. cbn [is_nil length repeat].
   destruct (values_while_loop Pat Args RErr BErr fmt seq [k] [VNone] errors 0) as [[[c e] n]| |];
     cbn [obind]; try reflexivity.
   destruct (values_collect Args RErr BErr [k] c e). reflexivity.
@@ -135,17 +138,16 @@ Qed.
 
 (* "Batch requests (… messages with attributes) give for every key what the single request gives": every
    position holds the message of the first locale that has it — value optional, attributes in source order —
-   and the error list has the same locale-major shape with MissingMessage / Resolver entries *)
+   and the error list has the same locale-major shape with MissingMessage / Resolver entries; an empty key
+   list pulls nothing and pushes nothing *)
 Theorem C16_messages : forall (seq : list (bundle_result Pat BErr)) (keys : list key) (errors : list err),
   all_wf seq ->
   exists res es n,
     format_messages_from_inner seq keys errors = Done (res, es, n) /\
     res = map (first_message seq) keys /\
     es = errors ++ groups has_message message_entry [] (firstn n seq) keys ++ flat_map (message_final seq) keys /\
-    n = match seq with
-        | [] => 0
-        | _ => Nat.max 1 (list_max (map (fun k => visits has_message [] seq [k]) keys))
-        end /\
+    n = list_max (map (fun k => visits has_message [] seq [k]) keys) /\
+    (keys = [] -> res = [] /\ es = errors /\ n = 0) /\
     (forall k pre r post msg,
         seq = pre ++ r :: post ->
         (forall r', In r' pre -> b_get_message Pat (bundle_of r') (k_id Args k) = None) ->
@@ -157,7 +159,8 @@ Theorem C16_messages : forall (seq : list (bundle_result Pat BErr)) (keys : list
                forall r, In r seq -> b_get_message Pat (bundle_of r) (k_id Args k) = None).
 Proof.
   intros seq keys errors Hwf. eexists _, _, _. split; [apply (format_messages_spec fmt), Hwf|].
-  split; [reflexivity|]. split; [reflexivity|]. split; [apply visits_max|]. split.
+  split; [reflexivity|]. split; [reflexivity|]. split; [apply batch_visits_list_max|]. split; [|split].
+  - intros ->. cbn. rewrite app_nil_r. repeat split; reflexivity.
   - intros k pre r post msg -> Hpre Hr. apply (first_message_split fmt); assumption.
   - intros k. apply first_message_none.
 Qed.
@@ -254,11 +257,15 @@ Example C16_example_messages :
            EResolver [11%N] [3%N] [6%N]], 3).
 Proof. vm_compute. reflexivity. Qed.
 
-(* the observation to triage (D18): an empty key list still pulls the first bundle *)
+(* D18 (fixed in /repo): an empty key list pulls no bundle and pushes no error — not even the errors carried
+   by a broken first bundle; a one-key request on the same sequence does push them *)
 Example C16_example_empty_keys :
-  format_values_from_inner _ unit N N ex_fmt ex_seq [] [] = Done ([], [], 1) /\
-  format_messages_from_inner _ unit N N ex_fmt ex_seq [] [] = Done ([], [], 1).
-Proof. split; vm_compute; reflexivity. Qed.
+  let broken := [BBroken (ex_bundle [[1%N]] []) [7%N]] in
+  format_values_from_inner _ unit N N ex_fmt broken [] [EBundle 9%N] = Done ([], [EBundle 9%N], 0) /\
+  format_messages_from_inner _ unit N N ex_fmt broken [] [] = Done ([], [], 0) /\
+  format_values_from_inner _ unit N N ex_fmt broken [ex_key [10%N]] [] =
+    Done ([None], [EBundle 7%N; EMissingMessage [10%N] (Some [1%N]); EMissingMessage [10%N] None], 1).
+Proof. repeat split; vm_compute; reflexivity. Qed.
 
 (* the hypothesis all_wf is needed: a bundle built with no locale makes the walk panic as soon as an error
    has to name the locale (reproduced on the real code: corpus/C16/boundary.case) *)
